@@ -48,14 +48,59 @@ def fixtures():
             self.log = log
             self.when = when      # timestep at which this system calls complete()
 
-        def execute(self):
-            t = self.model.systems.timestep
-            self.log.append((t, self.id))
-            if self.when is not None and t == self.when:
-                self.model.complete()
+        reenter = None            # what the completer asks for, from inside its own execute(), right after complete()
+        faults = ()
 
-    # falsy-but-valid user systems
-    Logger.variants = [Logger, type('LoggerSized', (Logger,), {'__len__': lambda self: 0}), type('LoggerOff', (Logger,), {'__bool__': lambda self: False})]
+        def execute(self):
+            _body(self)
+
+    def _body(self):
+        t = self.model.systems.timestep
+        self.log.append((t, self.id))
+        if self.when is not None and t == self.when:
+            self.model.complete()
+            if self.reenter:
+                # advance requests made by the completing system itself: the model is complete NOW, so they are no-ops / errors like any other
+                model, n = self.model, len(self.log)
+                clock = (model.timestep, model.systems.timestep)
+                faults = []
+                if self.reenter in ('execute', 'both'):
+                    model.execute()
+                    model.systems.execute_systems()
+                if self.reenter in ('throw', 'both'):
+                    try:
+                        model.systems.execute_systems(True)
+                        faults.append('execute_systems(throw_error=True) did not raise')
+                    except core.ModelCompleteError:
+                        pass
+                if (model.timestep, model.systems.timestep) != clock:
+                    faults.append(f'clock moved from {clock} to {(model.timestep, model.systems.timestep)}')
+                if len(self.log) != n:
+                    faults.append(f'systems ran: {self.log[n:]}')
+                self.faults = faults
+
+    class ExecMixin:
+        # behaviour shared between user classes that are not all systems: the system class below does not define execute() itself
+        def execute(self):
+            _body(self)
+
+    class LoggerMixed(ExecMixin, core.System):
+        reenter, faults = None, ()
+
+        def __init__(self, id, model, log, when=None, **kw):
+            core.System.__init__(self, id, model, **kw)
+            self.log = log
+            self.when = when
+
+    class LoggerBound(Logger):
+        # execute() chosen per instance (a strategy picked at construction time)
+        def __init__(self, *a, **kw):
+            super().__init__(*a, **kw)
+            self.execute = lambda: _body(self)
+
+    # falsy-but-valid user systems, and systems whose execute() is not defined in the system class body
+    Logger.variants = [Logger, type('LoggerSized', (Logger,), {'__len__': lambda self: 0}), type('LoggerOff', (Logger,), {'__bool__': lambda self: False}),
+                       LoggerMixed, LoggerBound]
     return core, collectors, Logger
 
 
@@ -145,6 +190,11 @@ def completing_run(ctx, rng, prios, pos, tc, windows=None, via_n=False):
     completer = systems[order[pos]]
     completer.when = tc
     completer.start, completer.frequency = 0, 1          # the completer itself must be due at tc
+    if rng.random() < 0.35:
+        completer.reenter = rng.choice(['execute', 'throw', 'both'])
+        ctx.count('advance_requests_from_inside_the_completing_system')
+    if any(type(s).__name__ in ('LoggerMixed', 'LoggerBound') for s in systems):
+        ctx.count('runs_with_systems_whose_execute_is_inherited_from_a_mixin_or_bound_per_instance')
     # run up to and including the completing step
     if via_n:
         n_req = tc + 1 + rng.randint(0, 3)
@@ -166,6 +216,9 @@ def completing_run(ctx, rng, prios, pos, tc, windows=None, via_n=False):
         for _ in range(tc + 1):
             check(model.is_running() and bool(model), 'model not running before completion')
             model.execute()
+    if completer.faults:
+        raise CaseViolation('advance requests made by the completing system right after complete(): ' + '; '.join(completer.faults),
+                            reenter=completer.reenter, priorities=prios, tc=tc)
     step_log = [i for (t, i) in log if t == tc]
     before = [systems[j] for j in order[:pos] if due(systems[j], tc)]
     after = [systems[j] for j in order[pos + 1:] if due(systems[j], tc)]
